@@ -55,6 +55,22 @@ CLAIMED["C18"] = ("ownership/effect analysis: type-resolved store scan, escape r
  "Complete ownership argument for the runtime: grammar tree and package variables are never written during parsing, the only shared mutable object is a sync.Pool used under a clear-before-Put / overwrite-after-Discard / linear-token discipline, everything else hangs off a per-call parser that never escapes.",
  "User code blocks and a user-shared *Stats are outside the claim. Trusted: sync.Pool.",
  "DESIGN.md §3 C18")
+CLAIMED["C07"] = ("per-kind obligation table for InitialNames / NullableVisit / IsNullable decided on the syntax trees of the 18 expression types; ordering/dominance rules on the detection pipeline",
+ "Sound static decision that the first-set and nullability analyses over-approximate what the interpreter can enter at the start position / match emptily, per expression kind, and that detection is wired to rejection before anything is written (finding F5 repaired).",
+ "Not decided: Tarjan / cycle enumeration correctness (unit-tested), left recursion created through throw/recover handlers, the run-time consequence.",
+ "DESIGN.md §3 C07")
+CLAIMED["C09"] = ("ownership rule (clone before in-place mutation) from type-resolved stores, side-condition extraction from the merge switch, traversal exhaustiveness, dominance of rule removal by the protection test",
+ "Sound static decision of necessary conditions of language preservation: no shared mutable structure between inlined copies, class merging only for non-inverted classes with equal flags, all kinds traversed, entrypoints protected (findings F1, F3, F4 repaired).",
+ "Not decided: semantic equivalence of each rewrite beyond its side conditions; label/scope effects of inlining.",
+ "DESIGN.md §3 C09")
+CLAIMED["C13"] = ("enumeration of crash constructs discharged by reasons with machine-checked side conditions; exit-code discipline on main's syntax tree",
+ "Sound static decision of panic-freedom of the generator for the enumerated construct classes and of the exit-code contract (findings F1, F2 repaired).",
+ "Not decided: termination (exponential analyses), out-of-range slicing. nilaway/staticcheck are cross-reference only (thorough).",
+ "DESIGN.md §3 C13")
+CLAIMED["C19"] = ("iteration-order insensitivity: effect classification of every map range, tabled instances with checked effect signatures, absence of other nondeterminism sources",
+ "Complete (modulo the reasoned table) static decision that map iteration order cannot reach the output of the generator or of the runtime (finding F6 repaired).",
+ "Not decided: determinism of golang.org/x/tools/imports.",
+ "DESIGN.md §3 C19")
 NA_REASON = {}
 DEFAULT_NA = "no check registered in this revision of the framework (see DESIGN.md for the planned static rules)"
 
